@@ -9,18 +9,6 @@ Require Import KawinRun.Iterators_gen KawinRun.BridgeA KawinRun.BridgeB KawinRun
 Import ListNotations.
 Open Scope R_scope.
 
-(* explicit Euler is first-order accurate for EVERY right-hand side f(t, y), time-dependent or not:
-   for every solution Y that is twice differentiable on the step, with |Y''| <= M there, the error of
-   one step started on the solution is at most M/2 h^2 *)
-Theorem C06_euler_local_error (f : R -> R -> R) (Y : R -> R) t h M :
-  0 < h ->
-  (forall s, t <= s <= t + h -> is_derive Y s (f s (Y s))) ->
-  (forall s, t <= s <= t + h -> ex_derive_n Y 2 s) ->
-  (forall s, t <= s <= t + h -> Rabs (Derive_n Y 2 s) <= M) ->
-  Rabs (Y (t + h) - Euler_R f h t (Y t)) <= M / 2 * h ^ 2.
-Proof. exact (euler_gen_local_error f Y t h M). Qed.
-Print Assumptions C06_euler_local_error.
-
 (* RK4 on y' = g(t), any four times differentiable g with |g''''| <= M on the step: local error at
    most 49/2880 M h^5 (this is where wrong stage times show: the statement is about g evaluated at
    t, t + h/2, t + h) *)
@@ -47,3 +35,18 @@ Theorem C06_lf_solution_derivs (l a0 a1 a2 a3 : R) (Y : R -> R) t :
   [Derive_n Y 1 t; Derive_n Y 2 t; Derive_n Y 3 t; Derive_n Y 4 t] = lf_derivs l a0 a1 a2 a3 t (Y t).
 Proof. exact (lf_gen_solution_derivs l a0 a1 a2 a3 Y t). Qed.
 Print Assumptions C06_lf_solution_derivs.
+
+(* RK4 on y' = c t y (nonlinear in (t, y)): every solution has the derivatives the Taylor polynomial
+   of C06_rk4_ty is built from, and the local error is of fifth order with an exact representation *)
+Theorem C06_ty_solution_derivs (c : R) (Y : R -> R) t :
+  (forall s, is_derive Y s (c * s * Y s)) ->
+  [Derive_n Y 1 t; Derive_n Y 2 t; Derive_n Y 3 t; Derive_n Y 4 t] = ty_derivs c t (Y t).
+Proof. exact (ty_gen_solution_derivs c Y t). Qed.
+Print Assumptions C06_ty_solution_derivs.
+
+Theorem C06_rk4_ty_local_error (c : R) (Y : R -> R) t h :
+  (forall s, is_derive Y s (c * s * Y s)) ->
+  0 < h -> exists z, t < z < t + h /\
+    Y (t + h) - RK4_R (fun s y => c * s * y) h t (Y t) = h ^ 5 * (Derive_n Y 5 z / 120 - ty_defect c t (Y t) h).
+Proof. exact (rk4_gen_ty_local_error c Y t h). Qed.
+Print Assumptions C06_rk4_ty_local_error.
